@@ -80,3 +80,34 @@ Definition chain_new (left_len right_len : nat) : outcome unit :=
 (* the known finding chain_relative_255: both sides relative, accepted, and the
    chain (itself a relative name) is 255 octets long *)
 Definition chain_relative_255 (l r : name) : bool := (wire_len l + wire_len r =? 255)%nat.
+
+(* ---- UncertainName::from_octets / from_slice: is_slice_absolute.  Ok true:
+   absolute, Ok false: relative.  [len] is the length of the whole input (the
+   relative exit tests it when the source does: uncertain_rel_checked). *)
+Fixpoint unc_loop (fuel : nat) (len : nat) (b : bytes) : outcome bool :=
+  match fuel with
+  | O => OutOfFuel
+  | S f =>
+      match split_from b with
+      | Ok (l, tail) =>
+          if is_root l then (if is_empty tail then Ok true else Err W_TrailingData)
+          else if is_empty tail then
+            (if uncertain_rel_checked && exceeds uncertain_rel_ge len uncertain_rel_lim
+             then Err W_LongName else Ok false)
+          else unc_loop f len tail
+      | Err e => Err e | Panic p => Panic p | OutOfFuel => OutOfFuel
+      end
+  end.
+
+Definition uncertain_check (b : bytes) : outcome bool :=
+  if exceeds uncertain_ge (length b) uncertain_lim then Err W_LongName
+  else unc_loop (S (length b)) (length b) b.
+
+(* finding class uncertain_relative_255: a relative spelling of 255 octets *)
+Definition uncertain_relative_255 (b : bytes) : bool := (length b =? 255)%nat.
+
+(* Chain::new_uncertain: only a relative left side is measured *)
+Definition chain_new_uncertain (left_relative : bool) (left_len right_len : nat) : outcome unit :=
+  if left_relative then
+    (if exceeds chain_unc_ge (left_len + right_len) chain_unc_lim then Err W_LongChain else Ok tt)
+  else Ok tt.
